@@ -162,7 +162,10 @@ def expected_specifics(gm):
 
 
 def search():
-    for maxdepth, maxnodes in ((10000, 100000000), (2, 100000000), (10000, 3), (1, 2), (3, 4)):
+    configs = ((10000, 100000000), (2, 100000000), (10000, 3), (1, 2), (3, 4))
+    if realrun.thorough():
+        configs = tuple((d, n) for d in (1, 2, 3, 4, 10000) for n in (2, 3, 4, 6, 10, 100000000))
+    for maxdepth, maxnodes in configs:
         try:
             proj, gm = build(maxdepth, maxnodes)
         except Exception as e:
@@ -175,4 +178,4 @@ def search():
 
 
 def count_cases():
-    return 5
+    return 5 if not realrun.thorough() else 30
